@@ -10,7 +10,7 @@ Record case := mk_case {
   c_dom : bool;                            (* harness' copy of the domain predicate *)
   c_cls : bool;                            (* harness' copy of the classifier nested_generic_arg_list *)
   c_ptab : list (bytes * option tref);     (* the real ParseTypeRef on every name of the case *)
-  c_cbq : list (bytes * bool);             (* the real strconv.CanBackquote on every tag of the case *)
+  c_cbq : list (bytes * (bool * bytes));   (* the real strconv.CanBackquote and strconv.Quote on every tag of the case *)
   c_text : option bytes;                   (* rendered text; None = panic *)
   c_ast : option tyast;                    (* go/parser's reading of that text; None = does not parse *)
   c_imports : renv                         (* Imports() afterwards, sorted by path *)
@@ -83,20 +83,6 @@ with vfields_eqb (a b : vfields) : bool :=
   | _, _ => false
   end.
 
-Fixpoint has_quoted_tag (a : tyast) : bool :=
-  match a with
-  | ANamed _ _ _ | ARaw _ => false
-  | AStar t | AChan t | AArray _ t | ASlice t => has_quoted_tag t
-  | AMap k v => has_quoted_tag k || has_quoted_tag v
-  | AStruct fs => has_quoted_tag_f fs
-  end
-with has_quoted_tag_f (fs : afields) : bool :=
-  match fs with
-  | AFNil => false
-  | AFCons _ _ t tag r =>
-      (match tag with QuotedTag _ => true | _ => false end) || has_quoted_tag t || has_quoted_tag_f r
-  end.
-
 (* canonicalisation before comparing trees: a "name" that is not an identifier (e.g. the type argument
    interface {} inside a generic type's name) is unanalysed text for go/parser's reader as well *)
 Fixpoint norm (a : tyast) : tyast :=
@@ -136,7 +122,9 @@ Definition pick_of (c : case) : bytes -> renv -> option bytes := fun p _ => aloo
 Definition parse_of (c : case) : bytes -> option tref :=
   fun s => match alookup s (c_ptab c) with Some r => r | None => None end.
 Definition cbq_of (c : case) : bytes -> bool :=
-  fun s => match alookup s (c_cbq c) with Some b => b | None => true end.
+  fun s => match alookup s (c_cbq c) with Some b => fst b | None => true end.
+Definition quote_of (c : case) : bytes -> bytes :=
+  fun s => match alookup s (c_cbq c) with Some b => snd b | None => s end.
 
 (* the model of the code as it is after the two C11 fixes *)
 Definition model (c : case) : res (tyast * renv) :=
@@ -163,7 +151,7 @@ with parse_ok_f (c : case) (fs : gfields) : bool :=
   match fs with GFNil => true | GFCons _ _ _ t _ r => parse_ok c t && parse_ok_f c r end.
 
 Definition cbq_ok (c : case) : bool :=
-  forallb (fun x => negb (snd x) || tag_ok_raw (fst x)) (c_cbq c).
+  forallb (fun x => negb (fst (snd x)) || tag_ok_raw (fst x)) (c_cbq c).
 
 (* ---- the classifier of the known-finding class nested_generic_arg_list (C15 defect #11) ---- *)
 (* some instantiation N[.. A ..] has an argument A = L[x1..xn], n >= 2, with a generic xj, j < n *)
@@ -201,8 +189,8 @@ Definition all_tags_ok : bytes -> bool := fun _ => true.
 Definition mismatch (c : case) : bool :=
   (match model c, c_text c with
    | Ok (a, e'), Some txt =>
-       negb (has_quoted_tag a || bytes_eqb (print a) txt)
-       || ((c_dom c || has_quoted_tag a) && match c_ast c with Some oa => negb (tyast_eqb (norm a) (norm oa)) | None => false end)
+       negb (bytes_eqb (print (quote_of c) a) txt)
+       || (c_dom c && match c_ast c with Some oa => negb (tyast_eqb (norm a) (norm oa)) | None => false end)
        || negb (env_equiv e' (c_imports c))
    | Panic, None => false
    | _, _ => true
